@@ -9,7 +9,7 @@ if [ -n "$(git status --porcelain)" ]; then echo "repo not clean"; exit 2; fi
 if ! git apply --check "$seed/patch.diff" 2>/dev/null; then echo "PATCH DOES NOT APPLY: $seed"; exit 2; fi
 git apply "$seed/patch.diff"
 export GOFLAGS=-mod=mod GOPROXY=off
-if go build ./... >/tmp/seedcheck_build.txt 2>&1 && go test -count=1 ./... >/tmp/seedcheck_test.txt 2>&1; then echo "suite: passes with the change"; else echo "suite: FAILS with the change"; grep -m3 "FAIL\|error" /tmp/seedcheck_test.txt /tmp/seedcheck_build.txt; fi
+if [ -n "${SEED_SKIP_TESTS:-}" ]; then go build ./... >/tmp/seedcheck_build.txt 2>&1 || echo "BUILD FAILS"; elif go build ./... >/tmp/seedcheck_build.txt 2>&1 && go test -count=1 ./... >/tmp/seedcheck_test.txt 2>&1; then echo "suite: passes with the change"; else echo "suite: FAILS with the change"; grep -m3 "FAIL\|error" /tmp/seedcheck_test.txt /tmp/seedcheck_build.txt; fi
 cd /verif
 for id in "$@"; do
   out=$(./bin/vcheck "$id" ${SEED_TIER:-quick} 2>&1)
